@@ -139,3 +139,31 @@ def run(cx):
     for s in start:
         ok = bool(re.search(r'^Option::Some\(WriteTcpState::LenBytes\(0,num::to_be_bytes\(cast<u16>\(Vec::len\((.*)\)\)\),\1\)\)$', s.term))
         cx.check('C17.Q1', ok, f.path, s.key(), 'prefix=be16(len(body))-of-the-same-buffer', s.term[:200], s.loc)
+
+    # ---------------------------------------------------------------- T1 the tokio <-> futures-io adapters are transparent
+    # every byte count the framing code reasons about comes through these adapters: each method is one forwarding call with
+    # the caller's arguments, no loop, no second write (a helpful "write all slices" loop here breaks the length prefix on short writes)
+    import loops
+    FWD = {
+        '<hickory_net::runtime::iocompat::AsyncIoTokioAsStd<W> as futures_io::if_std::AsyncWrite>::poll_write': r'^AsyncWrite::poll_write\(arg1\.0,arg2,arg3\)$',
+        '<hickory_net::runtime::iocompat::AsyncIoTokioAsStd<W> as futures_io::if_std::AsyncWrite>::poll_write_vectored': r'^AsyncWrite::poll_write_vectored\(arg1\.0,arg2,arg3\)$',
+        '<hickory_net::runtime::iocompat::AsyncIoTokioAsStd<W> as futures_io::if_std::AsyncWrite>::poll_flush': r'^AsyncWrite::poll_flush\(arg1\.0,arg2\)$',
+        '<hickory_net::runtime::iocompat::AsyncIoTokioAsStd<W> as futures_io::if_std::AsyncWrite>::poll_close': r'^AsyncWrite::poll_shutdown\(arg1\.0,arg2\)$',
+        '<hickory_net::runtime::iocompat::AsyncIoTokioAsStd<R> as futures_io::if_std::AsyncRead>::poll_read': r'^Poll::map_ok\(AsyncRead::poll_read\(arg1\.0,arg2,ReadBuf::new\(arg3\)\),closure:.*\)$',
+        '<hickory_net::runtime::iocompat::AsyncIoStdAsTokio<W> as tokio::io::async_write::AsyncWrite>::poll_write': r'^AsyncWrite::poll_write\(arg1\.0,arg2,arg3\)$',
+        '<hickory_net::runtime::iocompat::AsyncIoStdAsTokio<W> as tokio::io::async_write::AsyncWrite>::poll_flush': r'^AsyncWrite::poll_flush\(arg1\.0,arg2\)$',
+        '<hickory_net::runtime::iocompat::AsyncIoStdAsTokio<W> as tokio::io::async_write::AsyncWrite>::poll_shutdown': r'^AsyncWrite::poll_close\(arg1\.0,arg2\)$',
+        '<hickory_net::runtime::iocompat::AsyncIoStdAsTokio<R> as tokio::io::async_read::AsyncRead>::poll_read': r'^Poll::map_ok\(AsyncRead::poll_read\(arg1\.0,arg2,ReadBuf::initialized_mut\(arg3\)\),closure:.*\)$',
+    }
+    for path, rx in FWD.items():
+        g = cx.fn('C17.T1', path)
+        if not g:
+            continue
+        rets = cx.returns(g, r'.')
+        ok = len(rets) == 1 and bool(re.match(rx, rets[0].term)) and not loops.has_loops(g)
+        io = [s_ for s_ in cx.calls(g, r'::poll_(read|write|write_vectored|flush|close|shutdown)$')]
+        cx.check('C17.T1', ok and len(io) == 1, g.path, 'ret', 'adapter-method-is-one-forwarding-call',
+                 f'{len(rets)} returns, {len(io)} i/o calls, loops={loops.has_loops(g)}: ' + '; '.join(r_.term[:100] for r_ in rets), f'{g.file}:{g.line}',
+                 sample={'fn': shorten(path + '(')[:-1], 'forward': rets[0].term[:80] if rets else '', 'holds': ok and len(io) == 1})
+    other = [g for g in cx.prog.find(r'^<hickory_net::runtime::iocompat::AsyncIo\w+<\w> as [\w:]+>::\w+$') if g.path not in FWD]
+    cx.check('C17.T1', not other, 'iocompat', 'methods', 'no-unreviewed-adapter-method', ', '.join(shorten(g.path + '(')[:-1] for g in other))
